@@ -734,6 +734,7 @@ pub(crate) fn run(
                             _ => break 'fail,
                         }
                     } else {
+                        inner_slots.clear();
                         inner_slots.resize((end_group - start_group + 1) * 2, None);
                         if inner.search_slots(&input, &mut inner_slots).is_some() {
                             for i in 0..(end_group - start_group) {
